@@ -103,5 +103,18 @@ func TestOne(t *testing.T) {
 			fmt.Println(e)
 		}
 		fmt.Printf("violation=%v machinery=%q nontrivial=%v evals=%d faults=%v probes=%v\n", r.Violation, r.Machinery, r.Nontrivial, r.Evals, r.Faults, r.Probes)
+		r2 := sim.ExecTape(C18, "C18", "quick", s, r.Tape, sim.Options{Bubble: true, PanicIsViolation: true})
+		if r2.TraceHash != r.TraceHash {
+			fmt.Println("REPLAY DIFFERS")
+			for i := range r.Events {
+				if i >= len(r2.Events) || r.Events[i] != r2.Events[i] {
+					fmt.Println("  gen   :", r.Events[i])
+					if i < len(r2.Events) {
+						fmt.Println("  replay:", r2.Events[i])
+					}
+					break
+				}
+			}
+		}
 	})
 }
